@@ -78,4 +78,22 @@ def havingHolds (hs : List AExpr) (out : Row) : Bool := hs.all fun h => (h.eval 
 def Plan.fuse (p : Plan) (c : Cte) : FlatQuery :=
   { filt := c.where_, keys := p.dims.filterMap (resolveKey c), aggs := p.mets.filterMap (resolveAgg c) }
 
+/-! ### ungrouped plans: one output row per surviving base row -/
+
+structure FlatRaw where
+  filt : List Expr
+  items : List Item
+  deriving Repr, Inhabited, DecidableEq
+
+def FlatRaw.eval (fq : FlatRaw) (rows : List Row) : List Row :=
+  (rows.filter (allTrue fq.filt)).map fun r => fq.items.map fun it => (it.alias, it.e.eval r)
+
+/-- a plan consisting of one CTE and one non-aggregating SELECT over it, without outer WHERE -/
+def Plan.fusableRaw (p : Plan) (c : Cte) : Bool :=
+  p.ctes == [c] && p.base == c.name && p.joins.isEmpty && p.where_.isEmpty && p.ungrouped &&
+  (p.dims ++ p.rawMets).all (fun it => (resolveKey c it).isSome)
+
+def Plan.fuseRaw (p : Plan) (c : Cte) : FlatRaw :=
+  { filt := c.where_, items := (p.dims ++ p.rawMets).filterMap (resolveKey c) }
+
 end SideVerif.Sql
